@@ -42,6 +42,11 @@ class _Break(Exception):
         self.path = path
 
 
+class _Continue(Exception):
+    def __init__(self, path):
+        self.path = path
+
+
 def S(x):
     """python number -> exact sympy number (0.5 -> 1/2)."""
     if isinstance(x, bool):
@@ -262,7 +267,10 @@ def _isclose(a, b, *args, **kw):
 NP_FUNCS = {
     'numpy.array': _asarr, 'numpy.asarray': _asarr, 'numpy.asanyarray': _asarr,
     'numpy.zeros': _zeros, 'numpy.empty': _zeros, 'numpy.ones': _ones,
-    'numpy.zeros_like': lambda x, **k: _zeros(np.shape(x)), 'numpy.empty_like': lambda x, **k: _zeros(np.shape(x)),
+    'numpy.zeros_like': lambda x, *a, **k: _zeros(np.shape(x)), 'numpy.empty_like': lambda x, *a, **k: _zeros(np.shape(x)),
+    'numpy.broadcast_to': lambda x, shape: np.broadcast_to(np.asarray(x, dtype=object), tuple(int(v) for v in shape)).copy(),
+    'numpy.atleast_2d': lambda x: np.atleast_2d(np.asarray(x, dtype=object)), 'numpy.atleast_1d': lambda x: np.atleast_1d(np.asarray(x, dtype=object)),
+    'numpy.float64': lambda x: x, 'numpy.int64': lambda x: x,
     'numpy.identity': _identity, 'numpy.eye': _identity,
     'numpy.cos': lambda x: vmap(sp.cos, x), 'numpy.sin': lambda x: vmap(sp.sin, x), 'numpy.tan': lambda x: vmap(sp.tan, x),
     'numpy.arctan': lambda x: vmap(sp.atan, x), 'numpy.arctan2': lambda y, x: sp.atan2(y, x),
@@ -934,6 +942,8 @@ class SymEval:
                 self.assign(s.target, v, q)
                 try:
                     nxt.extend(self.block(s.body, [q]))
+                except _Continue as c:
+                    nxt.append(c.path)
                 except _Break as b:
                     b.path.done = None
                     broke.append(b.path)
@@ -961,6 +971,8 @@ class SymEval:
                     continue
                 try:
                     nxt.extend(self.block(s.body, [q]))
+                except _Continue as c:
+                    nxt.append(c.path)
                 except _Break as b:
                     done.append(b.path)
             paths = nxt
@@ -970,6 +982,9 @@ class SymEval:
 
     def s_Break(self, s, p):
         raise _Break(p)
+
+    def s_Continue(self, s, p):
+        raise _Continue(p)
 
     def s_Try(self, s, p):
         # only the try/else/finally bodies on the non-raising path
